@@ -661,6 +661,12 @@ def lens_digest(lens):
         return canon(lens.to_dict())
 
 
+def lens_size(lens_ops):
+    return 1.0 + sum(abs(o.get('thickness', 0)) for o in lens_ops
+                     if o.get('op') == 'add_surface' and
+                     math.isfinite(o.get('thickness', 0)))
+
+
 def batch_tol(lens_ops):
     """1e-13 relative for closed-form surfaces; 10 x the loosest
     intersection tolerance when an iterative surface is present (each
@@ -800,8 +806,14 @@ def execute(prop, hist):
                         continue
                     fin = np.abs(a[np.isfinite(a)])
                     scale = 1 + (fin.max() if fin.size else 0.0)
+                    # the intersection tolerance is an error *at the
+                    # iterative surface*; what reaches a later surface is
+                    # that error times the lever arm of the ray, estimated
+                    # by how far the rays are from the scale of the lens
+                    amp = max(1.0, scale / lens_size(
+                        lenses_ops[cl['lens'] % len(shared)]))
                     bad = ~(np.isclose(a, b, rtol=1e-13, atol=1e-13 * scale +
-                                       tol, equal_nan=True))
+                                       tol * amp, equal_nan=True))
                     if bad.any():
                         s, r = np.argwhere(bad)[0]
                         raise Violation(
